@@ -1,5 +1,6 @@
 """C18 - lint is pure, never fails, and its warnings are semantically justified."""
 import copy
+import json
 import random
 import re
 
@@ -175,6 +176,24 @@ def check_model(model, globals0, run_it=True):
         raise Violation('lint_script returned %r' % (w1,), d, 'lint-return-type')
     if w1 != w2:
         raise Violation('lint_script gives different warnings on a second call', d, 'lint-not-deterministic')
+    # an equal model that shares no objects with this one (a hand-built model may use one expression object in several places) lints the same
+    try:
+        w3 = impl.bs.lint_script(json.loads(json.dumps(model)))
+    except Exception as e:  # pylint: disable=broad-except
+        raise Violation('lint_script raised %s on an equal copy of the model' % type(e).__name__, d, 'lint-raises') from e
+    if w3 != w1:
+        raise Violation('an equal copy of the model (no shared expression objects) gives other warnings: %r vs %r' % (
+            [w for w in w3 if w not in w1][:2], [w for w in w1 if w not in w3][:2]), dict(d, shared_objects=True), 'lint-depends-on-object-identity')
+    # the returned list belongs to the caller: whatever the caller does to it, the next call's answer is the same
+    if w1 is w2:
+        raise Violation('two lint_script calls returned the very same list object', d, 'lint-shared-result')
+    kept = list(w1)
+    w1.append('scribbled by the caller')
+    w2.clear()
+    w4 = impl.bs.lint_script(model)
+    w1 = kept
+    if w4 != kept:
+        raise Violation('after the caller changed an earlier result, lint_script gives %r instead of %r' % (w4[:3], kept[:3]), d, 'lint-shared-result')
     kinds = [classify(w) for w in w1]
     # ---- exactness of label / redefinition warnings --------------------------------------------------------------------------
     unknown, relabel, refunc, dupargs = independent_analysis(model)
@@ -295,9 +314,29 @@ def _flatten_nested_functions(model):
     return n
 
 
+def _share_expressions(rnd, model):
+    """One expression object used in two scopes (a host that builds a model re-uses sub-trees)."""
+    slots = []
+    for _, _, stmts in scopes(model):
+        for t in stmts:
+            for key in ('expr', 'jump', 'return'):
+                if key in t and isinstance(t[key], dict) and isinstance(t[key].get('expr'), dict):
+                    slots.append(t[key])
+    if len(slots) >= 2:
+        for _ in range(rnd.randint(1, 3)):
+            a, b = rnd.sample(slots, 2)
+            b['expr'] = a['expr']
+        return True
+    return False
+
+
 def sloppy_model(rnd, size):
+    if rnd.random() < 0.02:
+        return {'statements': []}
     model = c08.random_model(rnd, size)
     _flatten_nested_functions(model)
+    if rnd.random() < 0.3:
+        _share_expressions(rnd, model)
     # duplicate function names / duplicate arguments / labels reused across scopes are already likely; add some on purpose
     for s in model['statements']:
         if 'function' in s and rnd.random() < 0.4:
